@@ -4,6 +4,10 @@
 //!   another; module/file/thread: () absent | ( str ); line: () | ( n ); mdc: ( (k v) ... )
 //! The record is encoded by the real `JsonEncoder::encode` on a fresh thread (named or
 //! unnamed as the case says, MDC installed with log_mdc::insert) into a Vec.
+//! optional 9th element: history ( n ... ) -- before the observed encode, the SAME thread encodes a
+//!   marker record (message "STALE<i>") once per entry into a writer that accepts n bytes in total
+//!   and then fails every write (n = 0: the first write fails).  The encoder is stateless per the
+//!   property (one record, one line per encode call), so the observed output must not depend on it.
 //! result: ( output_bytes thread_id ( mdc keys in log_mdc iteration order ) ) | (err 1)
 use log4rs::encode::json::JsonEncoder;
 use log4rs::encode::Encode;
@@ -26,6 +30,28 @@ impl io::Write for VecWriter {
 
 impl log4rs::encode::Write for VecWriter {}
 
+/// accepts `budget` bytes in total (short writes at the boundary), then fails
+#[derive(Debug)]
+struct FailWriter {
+    budget: usize,
+}
+
+impl io::Write for FailWriter {
+    fn write(&mut self, buf: &[u8]) -> io::Result<usize> {
+        if self.budget == 0 {
+            return Err(io::Error::new(io::ErrorKind::Other, "disk full"));
+        }
+        let n = buf.len().min(self.budget);
+        self.budget -= n;
+        Ok(n)
+    }
+    fn flush(&mut self) -> io::Result<()> {
+        Ok(())
+    }
+}
+
+impl log4rs::encode::Write for FailWriter {}
+
 fn opt_str(v: &Val) -> Option<String> {
     v.l().first().map(|x| x.str())
 }
@@ -47,6 +73,19 @@ fn work(case: Val) -> Val {
     let tid = thread_id::get();
     let mut w = VecWriter(Vec::new());
     let enc = JsonEncoder::new();
+    if let Some(hist) = c.get(8) {
+        for (i, n) in hist.l().iter().enumerate() {
+            let mut fw = FailWriter { budget: n.u() };
+            let _ = enc.encode(
+                &mut fw,
+                &log::Record::builder()
+                    .level(log::Level::Error)
+                    .target("stale-target")
+                    .args(format_args!("STALE{}", i))
+                    .build(),
+            );
+        }
+    }
     let mut b = log::Record::builder();
     b.level(lvl)
         .target(&target)
